@@ -261,6 +261,73 @@ fn run_serial_cached(mode: Mode) -> (String, String, String, String) {
     )
 }
 
+/// many invocations under contention: `total` signals are queued before the listener starts and a peer
+/// floods 1-byte frames from the first invocation on, so that both dispatch threads compete for the
+/// callback at every turn, for more turns than a 16-bit counter holds.  No two invocations may overlap.
+fn run_serial_many(mode: Mode, total: u64) -> (String, String, String, String) {
+    let (handler, listener) = node::split::<u64>();
+    let (_l1, a_tcp) = handler.network().listen(Transport::FramedTcp, "127.0.0.1:0").unwrap();
+    for i in 0..total {
+        handler.signals().send(i);
+    }
+    let inside = Arc::new(AtomicBool::new(false));
+    let overlaps = Arc::new(AtomicUsize::new(0));
+    let calls = Arc::new(AtomicU64::new(0));
+    let nets = Arc::new(AtomicU64::new(0));
+    let feeding = Arc::new(AtomicBool::new(false));
+    let done = Arc::new(AtomicBool::new(false));
+    let (i2, o2, c2, n2, f2, d2, h2) = (inside.clone(), overlaps.clone(), calls.clone(), nets.clone(), feeding.clone(), done.clone(), handler.clone());
+    let cb = move |e: Ev| {
+        if i2.swap(true, Ordering::SeqCst) {
+            o2.fetch_add(1, Ordering::SeqCst);
+        }
+        f2.store(true, Ordering::SeqCst);
+        if !matches!(e, Ev::Signal(_)) {
+            n2.fetch_add(1, Ordering::SeqCst);
+        }
+        let t = Instant::now();
+        while t.elapsed() < Duration::from_micros(3) {
+            std::hint::spin_loop();
+        }
+        if c2.fetch_add(1, Ordering::SeqCst) + 1 >= total && !d2.swap(true, Ordering::SeqCst) {
+            h2.stop();
+        }
+        i2.store(false, Ordering::SeqCst);
+    };
+    let (f3, d3) = (feeding.clone(), done.clone());
+    let feeder = std::thread::spawn(move || {
+        let Ok(mut s) = TcpStream::connect(a_tcp) else { return };
+        s.set_nodelay(true).ok();
+        s.set_write_timeout(Some(Duration::from_millis(200))).ok();
+        while !f3.load(Ordering::SeqCst) && !d3.load(Ordering::SeqCst) {
+            std::thread::sleep(Duration::from_millis(1));
+        }
+        let chunk: Vec<u8> = std::iter::repeat([1u8, 7u8]).take(64).flatten().collect();
+        while !d3.load(Ordering::SeqCst) {
+            let _ = s.write(&chunk);
+        }
+    });
+    let running = start(mode, &handler, listener, cb);
+    let deadline = Instant::now() + Duration::from_secs(60);
+    while !done.load(Ordering::SeqCst) && Instant::now() < deadline {
+        std::thread::sleep(Duration::from_millis(10));
+    }
+    let reached = done.swap(true, Ordering::SeqCst);
+    handler.stop();
+    let returned = finish(running, Duration::from_secs(5));
+    let _ = feeder.join();
+    let ov = overlaps.load(Ordering::SeqCst);
+    let n = calls.load(Ordering::SeqCst);
+    let net = nets.load(Ordering::SeqCst);
+    let ok = ov == 0 && reached && returned.is_some();
+    (
+        format!("node serialmany {} {}", mode.name(), total),
+        format!("overlaps={}", ov),
+        if ok { "ok".into() } else { format!("FAIL overlaps={} invocations={} (network {}) of {} reached={} returned={:?}", ov, n, net, total, reached, returned) },
+        format!("serial,many,{}{}", mode.name(), if net >= 1000 { ",both-threads" } else { "" }),
+    )
+}
+
 // -------------------------------------------------------------------------------------------------
 // C09
 
@@ -444,7 +511,11 @@ fn run_early(mode: Mode, cached_actions: usize, live_actions: usize, delay_ms: u
             }
             _ => {
                 let i = rng.below(conns.len() as u64) as usize;
-                msg_id = msg_id.wrapping_add(1);
+                // every third message repeats the previous payload byte for byte (possibly on the same
+                // connection, back to back): equal events are still distinct events
+                if !rng.chance(1, 3) || msg_id == 0 {
+                    msg_id = msg_id.wrapping_add(1);
+                }
                 let payload = vec![msg_id; 1 + (msg_id as usize % 5)];
                 let _ = conns[i].write_all(&framed(&payload));
                 expected.push(Ev::Message(conns[i].local_addr().unwrap(), payload));
@@ -508,6 +579,11 @@ fn run_early_burst(mode: Mode, n: u32) -> (String, String, String, String) {
     for i in 0..n {
         wire.extend_from_slice(&framed(&i.to_le_bytes()));
     }
+    // byte-identical messages back to back (a heartbeat, empty messages): equal events are distinct events
+    let same: [&[u8]; 6] = [b"ping", b"ping", b"ping", b"", b"", b"end"];
+    for m in same {
+        wire.extend_from_slice(&framed(m));
+    }
     peer.write_all(&wire).unwrap();
     std::thread::sleep(Duration::from_millis(300));
     let obs2 = observed.clone();
@@ -522,7 +598,7 @@ fn run_early_burst(mode: Mode, n: u32) -> (String, String, String, String) {
         std::thread::sleep(Duration::from_millis(2));
     }
     drop(peer);
-    let want = n as usize + 12;
+    let want = n as usize + 18;
     let deadline = Instant::now() + Duration::from_secs(5);
     while observed.lock().unwrap().len() < want && Instant::now() < deadline {
         std::thread::sleep(Duration::from_millis(5));
@@ -532,7 +608,13 @@ fn run_early_burst(mode: Mode, n: u32) -> (String, String, String, String) {
     let returned = finish(running, Duration::from_secs(3));
     let obs = observed.lock().unwrap().clone();
     let mut expected = vec![Ev::Accepted(local)];
-    for i in 0..n + 10 {
+    for i in 0..n {
+        expected.push(Ev::Message(local, i.to_le_bytes().to_vec()));
+    }
+    for m in same {
+        expected.push(Ev::Message(local, m.to_vec()));
+    }
+    for i in n..n + 10 {
         expected.push(Ev::Message(local, i.to_le_bytes().to_vec()));
     }
     expected.push(Ev::Disconnected(local));
@@ -748,6 +830,8 @@ fn main() {
                     }
                     let (c, i, o, t) = run_serial_cached(m);
                     emit(&mut out, &c, &i, &o, &t);
+                    let (c, i, o, t) = run_serial_many(m, 140_000);
+                    emit(&mut out, &c, &i, &o, &t);
                 }
             }
         }
@@ -801,6 +885,7 @@ fn main() {
             for line in stdin_lines() {
                 let ws: Vec<&str> = line.split(' ').collect();
                 let row = match ws.as_slice() {
+                    ["node", "serialmany", m, n] => run_serial_many(parse_mode(m), n.parse().unwrap_or(1000)),
                     ["node", "serialc", m] => run_serial_cached(parse_mode(m)),
                     ["node", "serial", m, d] => run_serial(parse_mode(m), d.parse().unwrap_or(0)),
                     ["node", "stop", m, sc, p] => run_stop(parse_mode(m), sc, p.parse().unwrap_or(0)),
